@@ -102,11 +102,11 @@ def judge_parallel(ck, trace_module, trace_file, what, module_name, describe, cf
     return total
 
 
-def mc_design(ck, module, cfg, what, workers=4, timeout=1500, coverage=False):
+def mc_design(ck, module, cfg, what, workers=4, timeout=1500, coverage=False, extra=None):
     """Model-check a design-level model that mirrors the current tree.  A violated invariant is a
     design-level counterexample of the property (reported as a violation with the TLC trace), any
     other failure is a tool error."""
-    r = core.run_tlc(module, cfg, workers=workers, timeout=timeout, coverage=coverage)
+    r = core.run_tlc(module, cfg, workers=workers, timeout=timeout, coverage=coverage, extra=extra)
     if r["error"]:
         raise core.ToolError(f"TLC failed on {module}/{cfg}: {r['error']}")
     ck.add_mc(r, what)
